@@ -11,7 +11,8 @@ From PV Require Import Base.Bytes AVM.Syntax AVM.Machine Src.Expr Src.Denote
   Comp.Blocks Comp.Lower Comp.Passes Comp.GraphSem Comp.LinearSem Comp.SimCheck Comp.Compile
   Proofs.LowerFrame Proofs.LowerLemmas Proofs.LowerCorrect Proofs.LowerShape
   Proofs.NormalizeLowered Proofs.FlattenCorrect Proofs.SortCorrect
-  Proofs.EndToEndExits Proofs.EndToEndGlue Proofs.EndToEnd Proofs.EndToEndTyped Proofs.EndToEndExamples.
+  Proofs.EndToEndExits Proofs.EndToEndGlue Proofs.EndToEnd Proofs.EndToEndTyped Proofs.EndToEndExamples
+  Proofs.OptimizeSem Proofs.OptimizeCorrect Proofs.EndToEndOpt Proofs.EndToEndOptExample.
 From PV Require Import Src.WellTyped.
 Import ListNotations.
 
@@ -155,6 +156,23 @@ Theorem C01_main_end_to_end_well_typed :
 Proof. exact main_end_to_end_well_typed. Qed.
 Print Assumptions C01_main_end_to_end_well_typed.
 
+(* a subroutine as compile_rec compiles it (compile_one o (Some r) (decl_body o r)): the declaration body
+   is a Seq, so the side condition holds for EVERY subroutine without deferred expression *)
+Theorem C01_subroutine_end_to_end :
+  forall (o : copts) (r : routine) (cr : croutine) (order : list id) (code : list comp),
+    r_deferred r = None ->
+    compile_one o (Some r) (decl_body o r) = COk cr ->
+    sort_blocks (cr_graph cr) (cr_start cr) (cr_end cr) = Some order ->
+    flatten_blocks (cr_graph cr) order = Some code ->
+    pos_of (cr_graph cr) order (cr_start cr) = 0 /\
+    forall env : denv, consistent env (routine_ctx o (Some r)) ->
+    forall (fuel : nat) (stk : list value) (st : mstate) (h : lconf),
+      halt_of (denote env fuel (root_ast (decl_body o r)) stk st) = Some h ->
+      lstar env code (LAt 0 stk st) h /\
+      forall c2, lstar env code (LAt 0 stk st) c2 -> lfinal c2 = true -> c2 = h.
+Proof. exact subroutine_end_to_end. Qed.
+Print Assumptions C01_subroutine_end_to_end.
+
 (* it cannot be dropped: a While used as an operand (rejected by PyTeal's constructors, accepted by the
    checks of compile_one) gives a routine whose code starts with the END of the loop body *)
 Theorem C01_end_to_end_needs_root_condition :
@@ -188,3 +206,62 @@ Print Assumptions C01_routine_end_to_end_example.
 Theorem C01_example_is_well_typed : well_typed (fun _ _ => None) false ex_ast = true.
 Proof. exact ex_ast_well_typed. Qed.
 Print Assumptions C01_example_is_well_typed.
+
+(* a subroutine with one argument and a loop: called with 4 on the stack it returns 12 by retsub *)
+Theorem C01_subroutine_end_to_end_example :
+  compile_one sub_opts (Some ex_sub) (decl_body sub_opts ex_sub) = COk sub_cr /\
+  sort_blocks (cr_graph sub_cr) (cr_start sub_cr) (cr_end sub_cr) = Some (order_of sub_cr) /\
+  flatten_blocks (cr_graph sub_cr) (order_of sub_cr) = Some (code_of sub_cr) /\
+  consistent ex_env_sub (routine_ctx sub_opts (Some ex_sub)) /\
+  denote ex_env_sub 100 (root_ast (decl_body sub_opts ex_sub)) [VI 4] ex_st = DRet [VI 12] sub_final /\
+  lstar ex_env_sub (code_of sub_cr) (LAt 0 [VI 4] ex_st) (LRet [VI 12] sub_final) /\
+  lrun 200 ex_env_sub (code_of sub_cr) (LAt 0 [VI 4] ex_st) = LRet [VI 12] sub_final.
+Proof. exact subroutine_end_to_end_example. Qed.
+Print Assumptions C01_subroutine_end_to_end_example.
+
+(* ---- with the scratch-slot optimiser (stretch; PARTIAL) ----
+   The optimiser deletes load/store operations only: the graph stays well-formed and keeps its single exit
+   (unconditionally), so sortBlocks/flattenBlocks are correct on the optimised graph too. *)
+Theorem C01_optimizer_keeps_shape :
+  forall (g : graph) (start : id) (skip : list N) (g' : graph) (en : id),
+    optimize_routine g start skip = Some g' -> wf g -> exits_at g en -> wf g' /\ exits_at g' en.
+Proof. exact optimize_keeps_shape. Qed.
+Print Assumptions C01_optimizer_keeps_shape.
+
+(* PARTIAL.  End to end with the optimiser applied between compile_one and sortBlocks, as far as C03's
+   theorem about the optimiser goes: under ITS hypotheses (ids_bounded, slot_ops_wf, no_orphan_store — which
+   the code does not establish, see C03_optimizer_refuted —, inj_on, safe_from) the code reaches a halting
+   configuration that equals the source outcome UP TO the scratch cells of the removed slots, and no other.
+   Missing for a full statement: the optimiser's own side conditions. *)
+Theorem C01_routine_end_to_end_optimized_partial :
+  forall (o : copts) (sub : option routine) (ast0 : expr) (cr : croutine) (skip : list N) (g' : graph)
+         (order : list id) (code : list comp),
+    (match sub with Some r => r_deferred r | None => None end) = None ->
+    compile_one o sub ast0 = COk cr ->
+    head_loop (root_ast ast0) = false ->
+    optimize_routine (cr_graph cr) (cr_start cr) skip = Some g' ->
+    sort_blocks g' (cr_start cr) (cr_end cr) = Some order ->
+    flatten_blocks g' order = Some code ->
+    ids_bounded (cr_graph cr) (cr_start cr) ->
+    slot_ops_wf (cr_graph cr) (iterate (cr_graph cr) (cr_start cr)) ->
+    no_orphan_store (cr_graph cr) g' (cr_start cr) ->
+    pos_of g' order (cr_start cr) = 0 /\
+    forall env : denv, consistent env (routine_ctx o sub) ->
+    inj_on env (removed_slot (cr_graph cr) g' (cr_start cr)) ->
+    forall (fuel : nat) (stk : list value) (st : mstate) (gh : gconf),
+      ghalt_of (denote env fuel (root_ast ast0) stk st) = Some gh ->
+      safe_from (PL env (removed_slot (cr_graph cr) g' (cr_start cr))) env (g_blk (cr_graph cr))
+                (GAt (cr_start cr) stk st) ->
+      exists gh',
+        conf_eqx (cellsL env (removed_slot (cr_graph cr) g' (cr_start cr))) gh gh' /\
+        lstar env code (LAt 0 stk st) (img (pos_of g' order) gh') /\
+        forall c2, lstar env code (LAt 0 stk st) c2 -> lfinal c2 = true -> c2 = img (pos_of g' order) gh'.
+Proof. exact routine_end_to_end_optimized_partial. Qed.
+Print Assumptions C01_routine_end_to_end_optimized_partial.
+
+Theorem C01_optimized_end_to_end_example :
+  optimize_routine (cr_graph exo_cr) (cr_start exo_cr) [] = Some exo_g /\
+  exists st', lstar ex_env1 exo_code (LAt 0 [] ex_st) (LExit (VI 1) st') /\
+              lrun 200 ex_env1 exo_code (LAt 0 [] ex_st) = LExit (VI 1) st'.
+Proof. exact optimized_end_to_end_example. Qed.
+Print Assumptions C01_optimized_end_to_end_example.
